@@ -594,6 +594,17 @@ pub fn gen_c05(run: &mut Run, seed: u64, thorough: bool) {
 pub fn gen_c11(run: &mut Run, seed: u64, thorough: bool) {
     let rounds = if thorough { 12 } else { 1 };
     let mut i = I::new(run, seed);
+    // the token contract built from the CURRENT source (the service itself deploys the checked-in blob) reports the id it was
+    // constructed with — at once and many ledgers later
+    for (k, tid) in [[0u8; 32], [0xabu8; 32], { let mut t = [0u8; 32]; t[31] = 1; t }].iter().enumerate() {
+        let maxlive: u32 = new_env().storage().max_ttl();
+        i.g.run.scenario("tk", &format!("c11-native-token-id-{k}"));
+        i.g.run.op("time 1000 100", "time");
+        i.g.run.op(&format!("tk.new {} {} - {} {} {} 7 {maxlive}", Addr::c(200).tok(), Addr::c(1).tok(), hex::encode(tid), hx(b"T"), hx(b"T")), "construct");
+        i.g.run.op("tk.token_id", "q-token-id");
+        i.g.run.op("time 1000 900", "time");
+        i.g.run.op("tk.token_id", "q-token-id-later");
+    }
     for r in 0..rounds {
         let chain_variants: Vec<Vec<u8>> = vec![b"stellar".to_vec(), b"stellar-2".to_vec()];
         for (cv, chain) in chain_variants.iter().enumerate() {
